@@ -285,6 +285,8 @@ type BranchOpts struct {
 	KeepGoing bool
 	// After runs one more autocommit statement on the same handle (same pinned connection) after the branch
 	After *StmtText
+	// Probe, when set, is called after every statement of an explicit transaction, before the transaction ends
+	Probe func(i int, r StmtResult)
 }
 
 // RunBranchOpt is RunBranch with options; the result of After is appended to Stmts.
@@ -343,6 +345,9 @@ func RunBranchOpt(ctx context.Context, db *sql.DB, o BranchOpts, stmts []StmtTex
 	for _, s := range stmts {
 		r := runStmt(ctx, tx, s.SQL, s.Args, prepared, s.Query)
 		out.Stmts = append(out.Stmts, r)
+		if o.Probe != nil {
+			o.Probe(len(out.Stmts)-1, r)
+		}
 		if r.Err != "" && !o.KeepGoing {
 			if err := safeEnd(tx, false); err != nil && strings.HasPrefix(err.Error(), "PANIC") {
 				out.CommitErr = err.Error()
